@@ -510,14 +510,72 @@ func registerFSWorld(e *Engine) {
 	}
 	fileWrite := func(c *Call, data *Term) []*State {
 		obj, h, ok := handleOf(c.St, c.Args[0])
-		_ = obj
 		if !ok {
 			return c.Panic("nil-deref", "write on nil *os.File")
 		}
 		if h.Closed {
 			return c.Return(Tuple{BVC(0, 64), e.fsError(c.St, "closed", "write: file already closed")})
 		}
+		if !h.Append {
+			// positional write (file opened without O_APPEND): overwrites from the handle's offset
+			f := &c.St.fs().Files[h.File]
+			old := StrConcat(f.Data...)
+			if !(old.Const && old.S == "") {
+				if !old.Const || !data.Const {
+					if h.RdChunk != 0 {
+						panic(unsupported("positional write at a non-zero offset over symbolic content"))
+					}
+					crashed := e.crashPoint(c, "write")
+					for _, cr := range crashed {
+						pre := FreshVar("torn", SString, 0)
+						cr.Nondets = append(cr.Nondets, NondetRec{Tag: "torn.prefix", Kind: "string", Term: pre})
+						cr.Assume(StrPrefixOf(pre, data))
+						cr.Assume(Not(Eq(pre, data)))
+						cf := &cr.fs().Files[h.File]
+						lp, lo := StrLenInt(pre), StrLenInt(old)
+						cf.Data = []*Term{Ite(intCmp("<", lp, lo), StrConcat(pre, StrSubstr(old, lp, intArith("-", lo, lp))), pre)}
+						cf.Torn = true
+					}
+					ld, lo := StrLenInt(data), StrLenInt(old)
+					f.Data = []*Term{Ite(intCmp("<", ld, lo), StrConcat(data, StrSubstr(old, ld, intArith("-", lo, ld))), data)}
+					e.fsTouch(c.St, h.File)
+					c.Return(Tuple{StrLen(data, 64), Iface{}})
+					return withCrash(c, crashed, nil)
+				}
+				crashed := e.crashPoint(c, "write")
+				for _, cr := range crashed {
+					// torn positional write: a proper prefix of data replaced the head of the file
+					pre := FreshVar("torn", SString, 0)
+					cr.Nondets = append(cr.Nondets, NondetRec{Tag: "torn.prefix", Kind: "string", Term: pre})
+					cr.Assume(StrPrefixOf(pre, data))
+					cr.Assume(Not(Eq(pre, data)))
+					cf := &cr.fs().Files[h.File]
+					cf.Data = []*Term{pre, StrSubstr(old, StrLenInt(pre), intArith("-", StrLenInt(old), StrLenInt(pre)))}
+					cf.Torn = true
+				}
+				pos := h.RdChunk // byte offset of this handle for positional writes
+				ns := old.S
+				if pos > len(ns) {
+					pos = len(ns)
+				}
+				end := pos + len(data.S)
+				tail := ""
+				if end < len(ns) {
+					tail = ns[end:]
+				}
+				f.Data = []*Term{StrC(ns[:pos] + data.S + tail)}
+				h.RdChunk = end
+				c.St.Heap[obj] = Opaque{Kind: "os.File", Data: h}
+				e.fsTouch(c.St, h.File)
+				c.Return(Tuple{StrLen(data, 64), Iface{}})
+				return withCrash(c, crashed, nil)
+			}
+		}
 		crashed := e.fsAppend(c, h.File, data)
+		if !h.Append && data.Const {
+			h.RdChunk += len(data.S)
+			c.St.Heap[obj] = Opaque{Kind: "os.File", Data: h}
+		}
 		c.Return(Tuple{StrLen(data, 64), Iface{}})
 		return withCrash(c, crashed, nil)
 	}
